@@ -82,6 +82,13 @@ def run(rep, props, replay=None):
                               {"x": C.hexf(x), "X": C.hexf(X), "order": order})
         if i % 6 == 0:
             monitors_smoothed_cov(rep, rng, n, quick)
+        if i % 6 == 3:
+            X2 = fd.dyadic_matrix(rng, n, m * 3).reshape(n, m, 3)
+            d2 = fd.dense([x, np.array([0.0, 0.5, 2.0])], X2)
+            mu2 = np.asarray(d2.mean().values)[0]
+            rep.case(("mean2d", X2.tobytes()), kind="mean/2-D")
+            if mu2.shape != (m, 3) or np.max(np.abs(mu2 - X2.mean(axis=0))) > 1e-12 * sc:
+                rep.violation("mean of 2-D dense data is not the pointwise average", {"X2": C.hexf(X2)})
     res = runq.run()
     for t, what, kind, X in todo:
         rep.case((what, kind, X.tobytes(), t), nontrivial=bool(np.ptp(X) > 0), kind=f"{what}/{kind}",
